@@ -16,6 +16,7 @@ DECIDED = ("R1 size_hint() = (len(), Some(len())) and count() = len(); R2 the pr
            "the cursor to 0 before compacting; R8 remove_move scans the whole entry list (from 0), not from the cursor.")
 DECIDED = DECIDED + ' R8 also: remove_move subtracts the destination from the entry with the same source (index loop or iter_mut().find); R9 next(), evaluated on sample (entry, mask) words: yields the lowest masked destination of the cursor entry, removes exactly that destination from the entry (destinations outside the mask survive for a later set_mask; for promotions only after the last promotion piece), advances the cursor iff no masked destination is left; R10 remove(mask) turns `moves` into `moves & !mask` for every entry of the whole list. R7 also: set_mask writes nothing but the mask, the cursor and the entry order (the position inside a group of promotion pieces survives); compaction by mem::swap through pointers or slice::swap by index.'
 DECIDED = DECIDED + ' R7 also: the header of the compaction loop dominates every return of set_mask (no early exit skips the re-partition). R6: push sites counted through one-push private helpers.'
+DECIDED = DECIDED + ' R90 premises re-run here: C18 C18.R2, C18.R6, C18.R8; C01 C01.R1.'
 NOT_DECIDED = "the iterator's behaviour under arbitrary interleavings of operations (a model of the entry list semantics would be needed); R5 records the one way in which it is known to fail"
 EXPLANATION = "K4 terms/paths for the small methods, K2 must-pass-through and guard/origin extraction for the protocol and the push sites."
 
@@ -573,6 +574,15 @@ def _no_setmask(P):
         t = blk["t"]
         if t["k"] == "call" and t["f"].get("fn") == MG + "::set_mask":
             t["f"]["fn"] = MG + "::noop"
+
+
+@rule("C10.R90", 'premises shared with other properties: C18 (C18.R2, C18.R6, C18.R8); C01 (C01.R1)')
+def r_premises_shared(ctx):
+    """This property's argument rests on these rules of other properties (what it calls is assumed to behave); they are re-run here so that a
+    breakage of one of them is reported by this property's own check as well."""
+    from analysis.runner import premise
+    premise(ctx, 'C18', ['C18.R2', 'C18.R6', 'C18.R8'] and set(['C18.R2', 'C18.R6', 'C18.R8']), 'the generator edits its entries with these bit-set operations; one of them no longer behaves like the set operation')
+    premise(ctx, 'C01', ['C01.R1'] and set(['C01.R1']), 'which entries exist, and in which order (the king entry last), is decided by the generator dispatch')
 
 
 CONTROLS = [
